@@ -132,6 +132,8 @@ def run_census(prog, rep, which, rule):
     rep.floor(rule + '.scope', len(scope), SCOPE_FLOORS[which], 'function bodies in the census scope')
     for b in roots:
         rep.fn(b)
+    from .. import fieldinv
+    finv = fieldinv.compute(prog)     # invariants of private integer fields, used by the interval rules
     taint = census.Taint(prog, scope, param_sources(prog, which, roots))
     table = {e['key']: e for e in load_table('panic_sites.json')['sites']}
     anywhere = {e['key'].rsplit('#', 1)[0]: e for e in table.values() if e.get('anywhere')}
@@ -202,6 +204,7 @@ def run_census(prog, rep, which, rule):
                 n_info += 1
                 rep.note('unreviewed, untainted site (informational): %s at %s' % (s.key, s.loc()))
                 rep.ob(rule, True, key, 'unreviewed but not derived from untrusted input (informational)', s.loc())
+    rep.note('field invariants inferred: %s' % ', '.join('%s#%d in %s' % (k[0], k[1], list(v)) for k, v in sorted(finv.items())))
     rep.note('%s census: %d bodies in scope, %d sites, %d discharged automatically, %d reviewed in the table, %d untainted informational; discharge histogram %s'
              % (which, len(scope), n_sites, n_dis, n_tab, n_info, dict(hist)))
     return scope, taint, seen_keys, table
